@@ -7,7 +7,8 @@
      dimension  DimSig = <<help, constant-label names, variable-label names>>                      *)
 EXTENDS Integers, Sequences, FiniteSets, TLC
 
-CONSTANTS Collectors   \* [cid -> Seq(desc)], desc = [name, help, cl, vl]
+CONSTANTS Collectors,  \* [cid -> Seq(desc)], desc = [name, help, cl, vl]
+          CommonConst  \* TRUE: the registry was created with a common label named like the constant label of the descriptors
 
 Cids == DOMAIN Collectors
 DescId(d)  == <<d.name, d.cl>>
@@ -23,9 +24,12 @@ RegIds == UNION {Ids(c) : c \in registered}
 
 IdClash(c)  == \E i \in DOMAIN Collectors[c] : DescId(Collectors[c][i]) \in RegIds
 DimClash(c) == \E i \in DOMAIN Collectors[c] : LET d == Collectors[c][i] IN d.name \in DOMAIN dims /\ dims[d.name] # DimSig(d)
-Refused(c)  == IdClash(c) \/ DimClash(c)
+\* a registry-level common label would be appended to samples that already carry a label of that name: such a collector
+\* is never admitted (C09), and like every refused registration it leaves no trace
+LabelClash(c) == CommonConst /\ \E i \in DOMAIN Collectors[c] : Collectors[c][i].cl # "-"
+Refused(c)  == IdClash(c) \/ DimClash(c) \/ LabelClash(c)
 \* the error kind is fixed only when the sole reason is an equal descriptor / the same collector
-ErrKind(c)  == IF IdClash(c) /\ ~DimClash(c) THEN "AlreadyReg" ELSE "Err"
+ErrKind(c)  == IF IdClash(c) /\ ~DimClash(c) /\ ~LabelClash(c) THEN "AlreadyReg" ELSE "Err"
 
 \* cases the property does not speak about: collectors whose own descriptors repeat or contradict each other
 Unspecified(c) == LET ds == Collectors[c] IN
